@@ -38,7 +38,7 @@ ASSUMPTIONS = [
 TRUSTED = ["models: coq/theories/Split.v (get_n_jobs, split_population, evaluate, run), SplitFloat.v (binary64 linspace via "
            "PrimFloat/Uint63 primitives); check functions coq/theories/C16Check.v",
            "Coq primitive floats and 63-bit integers as implemented by the kernel's VM (PrimFloat.*, PrimInt63.* are primitives, not axioms of this development)"]
-THEORIES = ["Base", "Split", "SplitFloat", "SplitProofs", "C16Check"]
+THEORIES = ["Base", "Split", "SplitFloat", "SplitProofs", "C16Check", "RandomPrims", "Py", "GenCode", "CodeEqC16"]
 
 IMPORTS = "From TF Require Import Base Split SplitFloat C16Check.\nOpen Scope Z_scope."
 LIVE_N_JOBS = lambda pop: [2, 3, pop, pop + 5, -1, -2]   # noqa: E731  (1 is the serial reference)
@@ -242,6 +242,12 @@ def permuted_batches(log, eff):
 
 
 # ----------------------------------------------------------------------- run
+def gen(ctx):
+    """(T) _get_n_jobs is translated from base/_ea.py on every run; fail closed"""
+    import translate_code as TC
+    TC.ensure(TC.C16_METHODS)
+
+
 def run(ctx, rep):
     sys.path.insert(0, os.path.join(C.VERIF, "harness"))
     import joblib
